@@ -106,7 +106,8 @@ Lemma fb_get_skip b n : fb_inv b ->
              fb_abs b' = skipn (length (q_peek n (fb_abs b))) (fb_abs b) /\
              fb_kind b' = fb_kind b /\
              f_content (fb_file b') = f_content (fb_file b) /\
-             f_pos (fb_file b') = (f_pos (fb_file b) + length (q_peek n (fb_abs b)))%nat.
+             f_pos (fb_file b') = (f_pos (fb_file b) + length (q_peek n (fb_abs b)))%nat /\
+             fb_remain b' = fb_remain b - lenZ (q_peek n (fb_abs b)).
 Proof.
   intros (Hc & Hp & Hr). destruct b as [k [c p cl] r]. cbn in *. subst cl.
   pose proof (q_peek_length_le n (skipn p c)) as Hle. rewrite skipn_length in Hle.
@@ -122,7 +123,8 @@ Lemma fb_skip_ok b n : fb_inv b -> Z.of_N n <= fb_remain b ->
   exists b', fb_skip b n = Ok b' /\ fb_inv b' /\
              fb_abs b' = skipn (N.to_nat n) (fb_abs b) /\ fb_kind b' = fb_kind b /\
              f_content (fb_file b') = f_content (fb_file b) /\
-             f_pos (fb_file b') = (f_pos (fb_file b) + N.to_nat n)%nat.
+             f_pos (fb_file b') = (f_pos (fb_file b) + N.to_nat n)%nat /\
+             fb_remain b' = fb_remain b - Z.of_N n.
 Proof.
   intros (Hc & Hp & Hr) Hn. destruct b as [k [c p cl] r]. cbn in *. subst cl.
   unfold fb_skip, f_seek_cur, f_seek_set. cbn [fb_file f_closed f_pos f_seek_cur f_seek_set f_content fb_kind fb_remain].
